@@ -785,7 +785,14 @@ func (r *replicateChannelManager) waitChannel(sourceInfo *model.SourceCollection
 				} else {
 					isRepeatedChannel = r.channelMapping.CheckKeyExist(targetChannel, targetInfo.PChannel)
 				}
-				if isRepeatedChannel {
+				// the forwarded channel was admitted when it had room; direct assignments may have filled it since
+				var hasRoom bool
+				if channelHandler.sourceKey {
+					hasRoom = r.channelMapping.CheckKeyNotExist(sourceInfo.PChannel, targetChannel)
+				} else {
+					hasRoom = r.channelMapping.CheckKeyNotExist(targetChannel, targetInfo.PChannel)
+				}
+				if isRepeatedChannel || !hasRoom {
 					r.channelLock.Unlock()
 					continue
 				}
